@@ -169,6 +169,38 @@ fn main() {
                     Err(_) => println!("PANIC"),
                 }
             }
+            // framedec <hex> -> Frame::from_stream on the bytes: "OK <fin> <rsv bits> <opcode u8> <mask> <length> <key hex> <payload hex>" | "ERR <error>" | PANIC
+            "framedec" => {
+                let data = unhex(parts[1]);
+                let r = std::panic::catch_unwind(|| humphrey_ws::verif::Frame::from_stream(&data[..]));
+                match r {
+                    Ok(Ok(f)) => {
+                        let (fin, rsv, op, mask, len, key, pay) = humphrey_ws::verif::frame_parts(f);
+                        println!("OK {} {}{}{} {} {} {} {} {}", fin as u8, rsv[0] as u8, rsv[1] as u8, rsv[2] as u8, op as u8, mask as u8, len, hexs(&key), hexs(&pay));
+                    }
+                    Ok(Err(e)) => println!("ERR {:?}", e),
+                    Err(_) => println!("PANIC"),
+                }
+            }
+            // frameenc <fin> <rsv bits> <opcode u8> <mask> <key hex> <payload hex> -> hex of Vec<u8>::from(frame) (length field = payload length)
+            "frameenc" => {
+                use std::convert::TryFrom;
+                let fin = parts[1] == "1";
+                let rb: Vec<bool> = parts[2].chars().map(|c| c == '1').collect();
+                let op = humphrey_ws::verif::Opcode::try_from(parts[3].parse::<u8>().unwrap()).unwrap();
+                let mask = parts[4] == "1";
+                let k = unhex(parts[5]);
+                let pay = unhex(parts[6]);
+                let r = std::panic::catch_unwind(|| {
+                    let f = humphrey_ws::verif::frame_from_parts(fin, [rb[0], rb[1], rb[2]], op, mask, pay.len() as u64, [k[0], k[1], k[2], k[3]], pay.clone());
+                    let v: Vec<u8> = f.into();
+                    v
+                });
+                match r {
+                    Ok(v) => println!("{}", hexs(&v)),
+                    Err(_) => println!("PANIC"),
+                }
+            }
             "sha1" => {
                 use humphrey_ws::verif::SHA1Hash;
                 let m = unhex(parts[1]);
